@@ -41,6 +41,7 @@ var dtargets = []dtarget{
 }
 
 type dtr struct {
+	mapVars    map[string]bool   // map[K]bool used as a set: held as the list of its keys
 	tensorVars map[string]bool   // x : *CPUTensor represented as x.dims / x.data
 	floatVars  map[string]bool   // variables holding float64
 	funcVars   map[string]bool   // parameters of function type (suf, sbf, af, initFunc)
@@ -120,7 +121,13 @@ func (t *dtr) expr(e ast.Expr) string {
 		if v.Name == "nil" {
 			return "XNilSlice"
 		}
-		if v.Name == "true" || v.Name == "false" || v.Name == "_" {
+		if v.Name == "true" {
+			return "XBool true"
+		}
+		if v.Name == "false" {
+			return "XBool false"
+		}
+		if v.Name == "_" {
 			break
 		}
 		return "XVar " + q(v.Name)
@@ -154,7 +161,27 @@ func (t *dtr) expr(e ast.Expr) string {
 			return "XIdx (" + t.expr(v.X) + ") (XInt " + ix + ")"
 		}
 	case *ast.IndexExpr:
+		if id, ok := v.X.(*ast.Ident); ok && t.mapVars[id.Name] {
+			return "XMember (XVar " + q(id.Name) + ") (" + t.expr(v.Index) + ")"
+		}
 		return "XIdx (" + t.expr(v.X) + ") (" + t.expr(v.Index) + ")"
+	case *ast.CompositeLit:
+		if typeText(v.Type) == "tensor.Range" && len(v.Elts) == 2 {
+			var f, to ast.Expr
+			for _, el := range v.Elts {
+				if kv, ok := el.(*ast.KeyValueExpr); ok {
+					switch nodeText(kv.Key) {
+					case "From":
+						f = kv.Value
+					case "To":
+						to = kv.Value
+					}
+				}
+			}
+			if f != nil && to != nil {
+				return "XMkRange (" + t.expr(f) + ") (" + t.expr(to) + ")"
+			}
+		}
 	case *ast.SliceExpr:
 		if !v.Slice3 {
 			return "XSub (" + t.expr(v.X) + ") " + t.optExpr(v.Low) + " " + t.optExpr(v.High)
@@ -169,6 +196,22 @@ func (t *dtr) expr(e ast.Expr) string {
 		}
 		if v.Op == token.LOR {
 			return "XOr (" + t.expr(v.X) + ") (" + t.expr(v.Y) + ")"
+		}
+		if (v.Op == token.EQL || v.Op == token.NEQ) && (isNil(v.X) || isNil(v.Y)) {
+			other := v.X
+			if isNil(v.X) {
+				other = v.Y
+			}
+			var c string
+			if id, ok := other.(*ast.Ident); ok && id.Name == "err" {
+				c = "XBin GoIR.OEq (XVar \"err\") (XInt 0)"
+			} else {
+				c = "XIsNil (" + t.expr(other) + ")"
+			}
+			if v.Op == token.NEQ {
+				return "XNot (" + c + ")"
+			}
+			return c
 		}
 		if t.isFloatExpr(v.X) || t.isFloatExpr(v.Y) {
 			op := map[token.Token]string{token.ADD: "FAdd", token.SUB: "FSub", token.MUL: "FMul", token.QUO: "FDiv"}[v.Op]
@@ -192,8 +235,14 @@ func (t *dtr) expr(e ast.Expr) string {
 			if tt == "[]int" && len(v.Args) == 2 {
 				return "XMakeInts (" + t.expr(v.Args[1]) + ")"
 			}
-			if tt == "[]any" && len(v.Args) == 2 {
+			if (tt == "[]any" || strings.HasPrefix(tt, "[]*")) && len(v.Args) == 2 {
 				return "XMakeAny (" + t.expr(v.Args[1]) + ")"
+			}
+			if tt == "[]tensor.Range" && len(v.Args) == 2 {
+				return "XMakeRanges (" + t.expr(v.Args[1]) + ")"
+			}
+			if strings.HasPrefix(tt, "map[") && len(v.Args) == 1 {
+				return "XNilSlice"
 			}
 			if tt == "[]any" && len(v.Args) == 3 && nodeText(v.Args[1]) == "0" {
 				return "XMakeAnyCap (" + t.expr(v.Args[2]) + ")"
@@ -241,6 +290,14 @@ func (t *dtr) block(b *ast.BlockStmt) string {
 func (t *dtr) setTarget(lhs ast.Expr, rhs string) string { return t.setTargetD(lhs, rhs, false) }
 
 func (t *dtr) setTargetD(lhs ast.Expr, rhs string, define bool) string {
+	if ix, ok := lhs.(*ast.IndexExpr); ok {
+		if id, ok := ix.X.(*ast.Ident); ok && t.mapVars[id.Name] {
+			if rhs != "XBool true" {
+				t.fail("map used as a set: only m[k] = true is supported")
+			}
+			return "TSet " + q(id.Name) + " (XAppend (XVar " + q(id.Name) + ") [" + t.expr(ix.Index) + "])"
+		}
+	}
 	switch v := lhs.(type) {
 	case *ast.Ident:
 		if v.Name != "_" {
@@ -475,6 +532,14 @@ func (t *dtr) stmt(s ast.Stmt) (res string) {
 				if id, ok := v.Lhs[0].(*ast.Ident); ok && v.Tok == token.DEFINE && t.isFloatExpr(v.Rhs[0]) {
 					t.floatVars[id.Name] = true
 				}
+				if id, ok := v.Lhs[0].(*ast.Ident); ok {
+					if c, ok := v.Rhs[0].(*ast.CallExpr); ok && nodeText(c.Fun) == "make" && strings.HasPrefix(typeText(c.Args[0]), "map[") {
+						if t.mapVars == nil {
+							t.mapVars = map[string]bool{}
+						}
+						t.mapVars[id.Name] = true
+					}
+				}
 				return t.setTargetD(v.Lhs[0], t.expr(v.Rhs[0]), v.Tok == token.DEFINE)
 			}
 		}
@@ -535,7 +600,11 @@ func (t *dtr) stmt(s ast.Stmt) (res string) {
 			return "TRet [" + strings.Join(rs, "; ") + "]"
 		}
 		var rs []string
-		for _, r := range v.Results {
+		for i, r := range v.Results {
+			if isNil(r) && i < len(t.results) && t.results[i].typ == "error" {
+				rs = append(rs, "XInt 0")
+				continue
+			}
 			if id, ok := r.(*ast.Ident); ok && t.tensorVars[id.Name] {
 				rs = append(rs, "XVar "+q(id.Name+".dims"), "XVar "+q(id.Name+".data"))
 				continue
